@@ -787,3 +787,12 @@ func (c *FnCtx) findBoxed(body ast.Node, info *types.Info) {
 		return true
 	})
 }
+
+func (e *Engine) isRepoPkg(path string) bool {
+	for _, p := range e.pkgs {
+		if p.PkgPath == path {
+			return true
+		}
+	}
+	return false
+}
